@@ -73,12 +73,10 @@ NFold(C, P, n) == IF n = 0 THEN INF ELSE PAdd(C, NFold(C, P, n - 1), P)
 
 \* binary form for scalars beyond 32 bits (bits LSB first): (2k+b)P = 2(kP) + bP.
 \* MC_Curve checks MulBits = NFold on every point of the toy curves.
-RECURSIVE MulBits(_, _, _)
 MulBits(C, P, bits) ==
-  IF bits = <<>> THEN INF
-  ELSE LET h == MulBits(C, P, Tail(bits))
-           s == PAdd(C, h, h)
-       IN IF Head(bits) = 1 THEN PAdd(C, s, P) ELSE s
+  FoldLeft(LAMBDA acc, k : LET dbl == PAdd(C, acc, acc)
+                            IN IF bits[Len(bits) + 1 - k] = 1 THEN PAdd(C, dbl, P) ELSE dbl,
+           INF, Idx(1, Len(bits)))
 
 \* line through P and Q (tangent if P = Q, vertical if Q = -P) evaluated at T (all finite)
 Line(C, P, Q, T) ==
